@@ -14,12 +14,28 @@ RULE = ('The real Swarm runs under the deterministic scheduler with fake members
         'schedule. Oracle: exactly-once per member with (member, *own arguments), sequential order and non-overlap, parallel_safe returns '
         'after all actions ended and raises iff one raised with __cause__ among THIS call\'s errors, parallel never raises, failed open '
         'closes every member and propagates, second open_links raises. Non-trivial = >= 2 members with a failing subset, or a re-used / '
-        'shared argument list.')
-ASSUMPTIONS = ['members are fakes; only Swarm itself is exercised', 'interleavings at thread start/join and the yield points inside action bodies']
+        'shared argument list. The URIs are handed over as list, tuple, dict, dict keys or generator. Sub "sync-members": the members are real '
+        'SyncCrazyflie objects over scripted Crazyflie stand-ins whose connection attempt succeeds, fails (any error text, also an empty '
+        'one) or loses the link before completion, reported synchronously or from another thread; a failing member makes open_links raise '
+        'with every link closed again, otherwise every member is open and close_links closes all.')
+ASSUMPTIONS = ['sub "scripts": members are fakes, only Swarm itself is exercised; sub "sync-members": Swarm and SyncCrazyflie are real, the Crazyflie below is scripted', 'interleavings at thread start/join and the yield points inside action bodies']
 
 
 class _Boom(Exception):
     pass
+
+
+def _container(uris, kind):
+    # any iterable of URIs is a swarm; its iteration order is the order of the swarm
+    if kind == 'tuple':
+        return tuple(uris)
+    if kind == 'dict-keys':
+        return {u: None for u in uris}.keys()
+    if kind == 'dict':
+        return {u: None for u in uris}
+    if kind == 'generator':
+        return (u for u in uris)
+    return list(uris)
 
 
 def run_swarm(case):
@@ -62,7 +78,8 @@ def run_swarm(case):
                 raise _Boom('prelude')
             pre.parallel(_fail)
             del log[:]
-            swarm = Swarm(list(uris), factory=Factory())
+            swarm = Swarm(_container(uris, case.get('container', 'list')), factory=Factory())
+            out.feat('uris-as-' + case.get('container', 'list'))
             members = dict(swarm._cfs) if hasattr(swarm, '_cfs') else {}
             # ---------------- open
             opened_ok = False
@@ -249,8 +266,117 @@ def swarm_case(draw):
                           'args': draw(st.sampled_from(['none', 'empty', 'fresh', 'fresh', 'reuse', 'shared', 'missing'])), 'nargs': draw(st.integers(0, 3)),
                           'fail': draw(st.one_of(st.just([]), st.lists(st.sampled_from(uris), unique=True, max_size=3))) if uris else [],
                           'yields': draw(st.integers(0, 3))})
-    return {'uris': uris, 'open_fail': open_fail, 'open_yields': draw(st.integers(0, 2)), 'calls': calls, 'schedule': draw(_sched)}
+    return {'uris': uris, 'open_fail': open_fail, 'open_yields': draw(st.integers(0, 2)), 'calls': calls, 'schedule': draw(_sched),
+            'container': draw(st.sampled_from(['list', 'list', 'tuple', 'dict-keys', 'dict', 'generator']))}
+
+
+_MSGS = ['No Crazyflie at the address', '', 'x']
+
+
+def run_sync_members(case):
+    """the members are real SyncCrazyflie objects over scripted Crazyflie stand-ins: a connection attempt succeeds, fails (with any
+    error text, also none) or loses the link before the connection is complete, reported from the caller's or another thread"""
+    from cflib.crazyflie.swarm import Swarm
+    from cflib.crazyflie.syncCrazyflie import SyncCrazyflie
+    from cflib.utils.callbacks import Caller
+    out = Outcome()
+    plans = case['members']
+    uris = ['radio://0/%d/2M/E7E7E7E7E7' % (10 + i) for i in range(len(plans))]
+    with Session(case.get('schedule'), horizon=50.0) as s:
+        class FakeCf:
+            def __init__(self, uri, plan):
+                self.uri, self.plan = uri, plan
+                self.connected, self.connection_failed, self.disconnected, self.fully_connected = Caller(), Caller(), Caller(), Caller()
+                self.connection_lost = Caller()
+                self.link_open = False
+                self.opens = self.closes = 0
+
+            def _later(self, fn):
+                if self.plan['async']:
+                    s.spawn(fn, 'link-' + self.uri[-14:-11])
+                else:
+                    fn()
+
+            def open_link(self, uri):
+                self.opens += 1
+                plan = self.plan
+
+                def finish():
+                    for _ in range(plan['yields']):
+                        s.yield_point()
+                    if plan['outcome'] == 'ok':
+                        self.link_open = True
+                        self.connected.call(uri)
+                        self.fully_connected.call(uri)
+                    elif plan['outcome'] == 'fail':
+                        self.connection_failed.call(uri, _MSGS[plan['msg']])
+                    else:
+                        self.disconnected.call(uri)
+                        self.connection_lost.call(uri, _MSGS[plan['msg']])
+                self._later(finish)
+
+            def close_link(self):
+                self.closes += 1
+
+                def finish():
+                    self.link_open = False
+                    self.disconnected.call(self.uri)
+                self._later(finish)
+        cfs = {u: FakeCf(u, p) for u, p in zip(uris, plans)}
+
+        class Factory:
+            def construct(self, uri):
+                return SyncCrazyflie(uri, cf=cfs[uri])
+        desc = 'members %r' % [(p['outcome'], _MSGS[p['msg']], 'async' if p['async'] else 'sync') for p in plans]
+        try:
+            swarm = Swarm(uris, factory=Factory())
+            exc = None
+            try:
+                swarm.open_links()
+            except Exception as e:  # noqa
+                exc = e
+            bad = [u for u, p in zip(uris, plans) if p['outcome'] != 'ok']
+            if bad:
+                if exc is None:
+                    out.fail('swarm:open-failure-not-raised', desc)
+                s.sleep(1.0)
+                still = [u for u in uris if cfs[u].link_open]
+                if still:
+                    out.fail('swarm:not-closed-after-failed-open', '%s: links still open %r' % (desc, still))
+            else:
+                if exc is not None:
+                    out.fail('swarm:open-raised', '%s: %r' % (desc, exc))
+                elif not all(scf.is_link_open() for scf in swarm._cfs.values()):
+                    out.fail('swarm:member-not-open', desc)
+                swarm.close_links()
+                s.sleep(1.0)
+                still = [u for u in uris if cfs[u].link_open]
+                if still:
+                    out.fail('swarm:not-closed-after-close', '%s: links still open %r' % (desc, still))
+            for u in uris:
+                if cfs[u].opens != 1:
+                    out.fail('swarm:open-count', '%s: member %s opened %d times' % (desc, u, cfs[u].opens))
+        except (Deadlock, Horizon) as e:
+            out.fail('swarm:hang', '%s: %s' % (desc, repr(e)[:300]))
+            return out
+        if s.deaths:
+            out.fail('swarm:thread-died:' + s.deaths[0][1][:60], s.deaths[0][2][-400:])
+    kinds = set(p['outcome'] for p in plans)
+    out.nontrivial = len(plans) >= 2 and len(kinds) >= 2
+    out.feat('sync-size-%d' % min(len(plans), 3), *['sync-' + k for k in sorted(kinds)],
+             *(['failure-without-text'] if any(p['outcome'] != 'ok' and not _MSGS[p['msg']] for p in plans) else []))
+    return out
+
+
+_member = st.fixed_dictionaries({'outcome': st.sampled_from(['ok', 'ok', 'ok', 'fail', 'lost']), 'msg': st.integers(0, 2), 'async': st.booleans(),
+                                 'yields': st.integers(0, 2)})
+
+
+@st.composite
+def sync_case(draw):
+    return {'members': draw(st.lists(_member, min_size=1, max_size=5)), 'schedule': draw(_sched)}
 
 
 def subchecks(tier):
-    return [Sub('scripts', run_swarm, strategy=swarm_case(), examples={'quick': 800, 'thorough': 40000})]
+    return [Sub('scripts', run_swarm, strategy=swarm_case(), examples={'quick': 800, 'thorough': 40000}),
+            Sub('sync-members', run_sync_members, strategy=sync_case(), examples={'quick': 400, 'thorough': 20000})]
